@@ -567,6 +567,41 @@ def _root_viterbi(coll, tree, indel_rate, indel_length, limit):
         return float(vp.get_score()), vp.get_alignment().to_dict()
 
 
+def _pair_hmm(s1, s2):
+    from cogent3 import get_model, make_tree, make_unaligned_seqs
+
+    LF = get_model("F81").make_likelihood_function(make_tree("(a:0.3,b:0.3)"), aligned=False)
+    with LF.updates_postponed():
+        LF.set_param_rule("indel_rate", value=0.1, is_constant=True)
+        LF.set_param_rule("indel_length", value=0.1, is_constant=True)
+        LF.set_sequences(make_unaligned_seqs({"a": s1, "b": s2}, moltype="dna"))
+    return LF.get_log_likelihood().edge
+
+
+def check_hmm_reuse(s1, s2, acc):
+    """one pair-HMM asked for its global and its local Viterbi path, in both orders: each answer must equal that of a
+    pair-HMM asked only that question (results are cached per object by option set)"""
+    def ask(edge, local):
+        vp = edge.get_viterbi_path(local=local)
+        return round(float(vp.get_score()), 9), vp.get_alignment().to_dict()
+
+    case = {"part": "hmm_reuse", "s1": s1, "s2": s2}
+    try:
+        fresh = {loc: ask(_pair_hmm(s1, s2), loc) for loc in (False, True)}
+        for order in ((False, True), (True, False)):
+            acc.case(dict(case, order=list(order)))
+            edge = _pair_hmm(s1, s2)
+            for i, loc in enumerate(order):
+                got = ask(edge, loc)
+                acc.outcome(("reuse", loc, got[0]))
+                if got != fresh[loc]:
+                    acc.fail(f"pair-HMM re-used for a {'local' if loc else 'global'} Viterbi path after a {'global' if loc else 'local'} one: differs from a fresh pair-HMM",
+                             dict(case, order=list(order)), {"got": got, "fresh": fresh[loc]})
+                    break
+    except Exception as e:  # noqa: BLE001
+        acc.fail(f"pair-HMM Viterbi path raised {type(e).__name__} [hmm re-use]", case, {"error": str(e)[:200]})
+
+
 def check_prog(seqs, tree, indel_rate, via, acc, root_score=False):
     from cogent3 import get_app, make_tree, make_unaligned_seqs
     from cogent3.align.progressive import tree_align
@@ -687,6 +722,8 @@ def shards(tier, seed):
                 continue  # no triple starting with this pair is the representative of its orbit
             for rate in pg["indel_rates"]:
                 out.append({"part": "prog", "first": i, "second": j, "rate": rate})
+    for L in (1, 2, 3):
+        out.append({"part": "hmm_reuse", "max_len": L})
     for sp in out:
         sp["tier"] = tier
     return out
@@ -751,6 +788,14 @@ def run_shard(spec, acc):
                 if canonical(first, *rest):
                     check_ref([first, *rest], "longest", spec["setting"], acc)
         acc.sample({"part": "ref", "kind": spec["kind"], "k": k, "setting": spec["setting"]}, "ref")
+    elif part == "hmm_reuse":
+        ss = [x for x in strings("AC", 1, spec["max_len"])]
+        for s1 in ss:
+            if len(s1) != spec["max_len"]:
+                continue
+            for s2 in ss:
+                check_hmm_reuse(s1, s2, acc)
+        acc.sample({"part": "hmm_reuse", "first sequence length": spec["max_len"], "alphabet": "AC"}, "hmm_reuse")
     elif part == "prog":
         pg = t["prog"]
         ss = list(strings(pg["alphabet"], 1, pg["max_len"]))
@@ -787,6 +832,8 @@ def replay(case):
         check_p2m(case["m"], [(n, p) for n, p in case["items"]], acc)
     elif part == "ref":
         check_ref(case["seqs"], case["ref"], case["setting"], acc)
+    elif part == "hmm_reuse":
+        check_hmm_reuse(case["s1"], case["s2"], acc)
     elif part == "prog":
         check_prog(case["seqs"], case["tree"], case["indel_rate"], case["via"], acc, root_score=case.get("root_score", False))
     else:
